@@ -23,6 +23,7 @@ import (
 	"strconv"
 	"strings"
 	"sync"
+	"sync/atomic"
 	"syscall"
 	"time"
 	"unsafe"
@@ -62,6 +63,10 @@ func userOf(id string) *ptttype.UserecRaw {
 
 // register: one registration request. newreg = through ptt.NewRegister, the request entry (it builds
 // the record from the request and calls SetupNewUser); else ptt.SetupNewUser with a record built here.
+// viaRegister: requests that go through the request entry go one level higher still, through ptt.Register
+// (NewRegister, then home directory, favourites, login) — ops rregp. Set per history, before any thread starts.
+var viaRegister atomic.Bool
+
 func register(id string, newreg bool) error {
 	if !newreg {
 		return ptt.SetupNewUser(userOf(id))
@@ -72,6 +77,11 @@ func register(id string, newreg bool) error {
 	copy(ip[:], "127.0.0.1")
 	nick := &ptttype.Nickname_t{}
 	copy(nick[:], "verif")
+	if viaRegister.Load() {
+		_, _, err := ptt.Register(userID, []byte("123123"), ip, &ptttype.Email_t{}, false, false,
+			nick, &ptttype.RealName_t{}, &ptttype.Career_t{}, &ptttype.Address_t{}, true)
+		return err
+	}
 	_, _, err := ptt.NewRegister(userID, []byte("123123"), ip, &ptttype.Email_t{}, false, false,
 		nick, &ptttype.RealName_t{}, &ptttype.Career_t{}, &ptttype.Address_t{}, true)
 	return err
@@ -144,13 +154,14 @@ func childMain(home string, shmKey, semKey int, light bool) {
 			} else {
 				say("inited ok")
 			}
-		case "start", "startn":
+		case "start", "startn", "startr":
 			if len(f) < 3 {
 				continue
 			}
 			tag, _ := strconv.Atoi(f[1])
 			id := f[2]
-			newreg := f[0] == "startn"
+			newreg := f[0] != "start"
+			viaRegister.Store(f[0] == "startr")
 			ch := make(chan struct{}, 1)
 			tmu.Lock()
 			gate[tag] = ch
@@ -357,6 +368,7 @@ type ctl struct {
 	tidOf   map[string]int // goroutines of this process
 	procs   []int          // thread -> process (0 = this process)
 	newreg  bool           // requests go through ptt.NewRegister (ops nregp / nregx)
+	viaReg  bool           // … through ptt.Register (ops rregp)
 	legacy  bool           // `reg` ops: a release into the lock segment while another thread waits is not driven
 	gate    []chan struct{}
 	events  []chan event
@@ -453,6 +465,9 @@ func (c *ctl) start(t int) {
 		cmd := "start"
 		if c.newreg {
 			cmd = "startn"
+		}
+		if c.newreg && c.viaReg {
+			cmd = "startr"
 		}
 		fmt.Fprintf(ch.in, "%s %d %s\n", cmd, c.tag(t), c.ids[t])
 		return
@@ -884,6 +899,7 @@ func colliderOf(id string) int {
 }
 
 var expiryTrash []string
+var homesDirty bool
 
 // reset builds the table of a history: the fixture, fillers up to fillTo accounts, then the ids of `pre`
 // (followed by a reload of the index from .PASSWDS, so that the bucket chains are in slot order); with
@@ -894,6 +910,20 @@ func reset(fillTo int, pre []string, victim int, staleFresh bool) (fifo string) 
 		_ = os.RemoveAll(d)
 	}
 	expiryTrash = nil
+	if homesDirty {
+		// ptt.Register made home directories: every history starts without the homes of earlier ones
+		homesDirty = false
+		letters, _ := os.ReadDir(env.Path("home"))
+		for _, l := range letters {
+			if len(l.Name()) != 1 {
+				continue
+			}
+			es, _ := os.ReadDir(env.Path("home", l.Name()))
+			for _, e := range es {
+				_ = os.RemoveAll(env.Path("home", l.Name(), e.Name()))
+			}
+		}
+	}
 	_ = os.WriteFile(ptttype.FN_PASSWD, pristine, 0o644)
 	_ = os.WriteFile(ptttype.FN_FRESH, []byte("fresh"), 0o644)
 	if err := env.ResetSHM(); err != nil {
@@ -999,6 +1029,7 @@ type kase struct {
 	pre    []string // registered before the history, then the index is reloaded (ids of the `colliders` pool)
 	victim int      // expiry family (`regx` ops): 1 + the slot (0-based) of the account to expire; 0 = none
 	newreg bool     // through ptt.NewRegister (ops nregp / nregx)
+	viaReg bool     // with newreg: through ptt.Register (ops rregp / rregx)
 	stale  bool     // expiry family: .fresh exists but is three hours old (else it is missing)
 }
 
@@ -1046,6 +1077,11 @@ func runScheduleOnce(k kase, nontrivial bool, final bool) bool {
 	}
 	c := newCtl(ids, procs, legacy)
 	c.newreg = k.newreg && !legacy
+	c.viaReg = c.newreg && k.viaReg
+	viaRegister.Store(c.viaReg)
+	if c.viaReg {
+		homesDirty = true
+	}
 	c.fifo = fifo
 	defer func() {
 		if c.wfd >= 0 {
@@ -1096,6 +1132,9 @@ func runScheduleOnce(k kase, nontrivial bool, final bool) bool {
 		pre := ""
 		if c.newreg {
 			pre = "n"
+		}
+		if c.viaReg {
+			pre = "r"
 		}
 		if k.victim > 0 {
 			return pre + fmt.Sprintf("regx %d %s %s %s %d %s", ptttype.MAX_USERS, join(taken), join(idc), join(procs), k.victim-1, join(full))
@@ -1485,6 +1524,11 @@ func main() {
 	defer env.Close()
 	defer closeChildren(false)
 	_ = cmbbs.PasswdInit()
+	// a site's home tree has its letter directories (ptt.Register makes the user's directory inside one)
+	for ch := 'a'; ch <= 'z'; ch++ {
+		_ = os.MkdirAll(env.Path("home", string(ch)), 0o755)
+		_ = os.MkdirAll(env.Path("home", strings.ToUpper(string(ch))), 0o755)
+	}
 	pristine, _ = os.ReadFile(ptttype.FN_PASSWD)
 	// make sure the file covers every slot
 	if want := int(ptttype.USEREC_RAW_SZ) * ptttype.MAX_USERS; len(pristine) < want {
@@ -1518,9 +1562,10 @@ func main() {
 			if len(f) == 2 && f[0] == "peer" && f[1] == "0" {
 				peerPhase()
 			}
-			newreg := false
-			if len(f) > 0 && (f[0] == "nregp" || f[0] == "nregx") {
+			newreg, viaReg := false, false
+			if len(f) > 0 && (f[0] == "nregp" || f[0] == "nregx" || f[0] == "rregp" || f[0] == "rregx") {
 				newreg = true
+				viaReg = f[0][0] == 'r'
 				f[0] = f[0][1:]
 			}
 			if (len(f) == 5 && f[0] == "reg") || (len(f) == 6 && f[0] == "regp") || (len(f) == 7 && f[0] == "regx") {
@@ -1547,7 +1592,7 @@ func main() {
 						pre = append(pre, colliders[v-900])
 					}
 				}
-				k := kase{ids: ids, fillTo: ptttype.MAX_USERS - free - len(pre), pre: pre, sched: parseInts(f[len(f)-1]), newreg: newreg}
+				k := kase{ids: ids, fillTo: ptttype.MAX_USERS - free - len(pre), pre: pre, sched: parseInts(f[len(f)-1]), newreg: newreg, viaReg: viaReg}
 				if f[0] == "regx" {
 					// ids whose code is a taken slot's code are that slot's account (a filler): requests for the expired id
 					tk := parseInts(f[2])
@@ -1788,6 +1833,19 @@ func main() {
 		m := 1
 		if thorough {
 			m = 10
+		}
+		// one level higher: ptt.Register (what follows NewRegister — also on its failure — is part of the request)
+		for _, ids := range [][]string{same, cased, diff} {
+			for i, sc := range all2 {
+				if !thorough && len(ids) == 2 && ids[0] == diff[0] && i%3 != 0 {
+					continue
+				}
+				runSchedule(kase{ids: ids, procs: []int{0, 0}, sched: sc, label: "register", newreg: true, viaReg: true}, true)
+			}
+		}
+		for i := 0; i < 15*m; i++ {
+			runSchedule(kase{ids: cased, procs: [][]int{{0, 1}, {1, 1}, {1, 2}}[i%3], sched: all2[run.R.Intn(len(all2))], label: "register", newreg: true, viaReg: true}, true)
+			runSchedule(kase{ids: tri, procs: []int{0, 0, 0}, sched: randomSchedule(3, 0), label: "register", newreg: true, viaReg: true}, true)
 		}
 		runN(same, []int{0, 0}, 0, 0)
 		runN(cased, []int{0, 0}, 0, 0)
